@@ -1169,7 +1169,8 @@ func genLocks(p *pkgInfo, out string) {
 			e.WriteString("-- GENERATED by fhextract; the lock analysis failed, the table is empty so the dependent theorem fails\n")
 			fmt.Fprintf(&e, "-- MISSING: lock analysis panic: %v\nnamespace Fh.Gen\n\n", r)
 			e.WriteString("def lockSpec : List (String × String × String) := []\n\n")
-			e.WriteString("def lockRows : List (String × String × String × String × String × List String) := []\n\nend Fh.Gen\n")
+			e.WriteString("def lockRows : List (String × String × String × String × String × List String) := []\n\n")
+			e.WriteString("def handoverSites : Nat := 0\n\ndef handoverRows : List (String × String) := []\n\nend Fh.Gen\n")
 			writeIfChanged(filepath.Join(out, "Locks.lean"), e.Bytes())
 		}
 	}()
@@ -1380,6 +1381,8 @@ func genLocks(p *pkgInfo, out string) {
 		fmt.Fprintf(&b, "  (%s, %s, %s, %s, %s, %s)%s   -- %s\n", leanStr(r.typ), leanStr(r.field), leanStr(r.fn), leanStr(r.kind), leanStr(r.class),
 			leanStrList(r.locks), sep, r.pos)
 	}
-	b.WriteString("]\n\nend Fh.Gen\n")
+	b.WriteString("]\n")
+	b.WriteString(genHandover(a))
+	b.WriteString("\nend Fh.Gen\n")
 	writeIfChanged(filepath.Join(out, "Locks.lean"), b.Bytes())
 }
